@@ -65,7 +65,7 @@ pub fn observe(bytes: &[u8]) -> Observed {
     if nt > 0 {
         let hdr = if nt == 1 { 8 } else { 8 * nt };
         let concat: Vec<u8> = msg.values().iter().flat_map(|v| v.iter().copied()).collect();
-        o.concat_ok = hdr <= bytes.len() && concat.as_slice() == &bytes[hdr..] && msg.values().iter().all(|v| v.len() % 4 == 0);
+        o.concat_ok = hdr <= bytes.len() && concat.as_slice() == &bytes[hdr..];
         match guarded(|| msg.encode()) {
             Ok(Ok(e)) => {
                 o.reenc_ok = e.as_slice() == bytes;
@@ -199,7 +199,7 @@ fn event_of(bytes: &[u8], kind: &str, api: Option<(&[u64], &[u64])>) -> Value {
     e
 }
 
-fn random_api_message(rng: &mut Rng, max_total_words: usize) -> (Vec<u8>, Vec<u64>, Vec<u64>) {
+fn random_api_message(rng: &mut Rng, max_total_words: usize) -> Result<(Vec<u8>, Vec<u64>, Vec<u64>), (String, Vec<u64>, Vec<u64>)> {
     let nf = match rng.below(10) { 0 => 0, 1 => 18, 2 => 1, _ => rng.range(1, 18) } as usize;
     let mut ranks: Vec<u64> = (1..=18).collect();
     // choose nf distinct ranks
@@ -214,17 +214,31 @@ fn random_api_message(rng: &mut Rng, max_total_words: usize) -> (Vec<u8>, Vec<u6
         budget -= l;
         lens.push(l as u64);
     }
-    let mut m = RtMessage::with_capacity(nf as u32);
-    for (k, r) in tags.iter().enumerate() {
+    let mut vals: Vec<Vec<u8>> = Vec::new();
+    for (k, _) in tags.iter().enumerate() {
         // values that look like headers now and then, so that mutations move boundaries into them
         let mut v = Vec::with_capacity(lens[k] as usize * 4);
         for _ in 0..lens[k] {
             let w: u32 = match rng.below(8) { 0 => 0, 1 => 4, 2 => 8, 3 => crate::util::rd32(&rc::tag_wire(rng.range(1, 18))), _ => rng.next_u64() as u32 };
             v.extend_from_slice(&w.to_le_bytes());
         }
-        m.add_field(tag_of_rank(*r), &v).expect("ascending add_field");
+        vals.push(v);
     }
-    (m.encode().expect("encode"), tags, lens)
+    // the code under test: a refusal or panic here is an observation, not a harness error
+    let built = guarded(|| {
+        let mut m = RtMessage::with_capacity(nf as u32);
+        for (k, r) in tags.iter().enumerate() {
+            if m.add_field(tag_of_rank(*r), &vals[k]).is_err() {
+                return Err(format!("add_field refused ascending tag rank {}", r));
+            }
+        }
+        m.encode().map_err(|_| "encode failed".to_string())
+    });
+    match built {
+        Ok(Ok(e)) => Ok((e, tags, lens)),
+        Ok(Err(e)) => Err((e, tags, lens)),
+        Err(p) => Err((format!("panic: {}", p), tags, lens)),
+    }
 }
 
 fn mutate(rng: &mut Rng, bytes: &[u8], nt: usize) -> Vec<u8> {
@@ -241,6 +255,29 @@ fn mutate(rng: &mut Rng, bytes: &[u8], nt: usize) -> Vec<u8> {
             _ => rng.below(40) as u32,
         }
     };
+    // half of the mutants are near-valid: exactly one header rule is broken (or just kept), everything else intact
+    if nt >= 2 && nwords >= 2 * nt && rng.chance(1, 2) {
+        let vlen = b.len() - 8 * nt;
+        let off_pos = |k: usize| 4 + 4 * (k - 1);            // byte position of offset k (1-based, 1..nt-1)
+        let tag_pos = |k: usize| 4 * nt + 4 * (k - 1);        // byte position of tag k (1-based)
+        let get = |b: &Vec<u8>, p: usize| crate::util::rd32(&b[p..]);
+        let k = 1 + rng.below((nt - 1) as u64) as usize;      // an offset index
+        let lo = if k == 1 { 0 } else { get(&b, off_pos(k - 1)) };
+        let hi = if k == nt - 1 { vlen as u32 } else { get(&b, off_pos(k + 1)) };
+        let put = |b: &mut Vec<u8>, p: usize, w: u32| b[p..p + 4].copy_from_slice(&w.to_le_bytes());
+        match rng.below(9) {
+            0 => { let w = if hi > lo { lo + 1 + (rng.below((hi - lo) as u64) as u32 % (hi - lo).max(1)) } else { lo + 1 }; put(&mut b, off_pos(k), if w % 4 == 0 { w + 1 + rng.below(3) as u32 } else { w }); } // unaligned, between neighbours
+            1 => put(&mut b, off_pos(k), lo),                  // zero-length value (still valid)
+            2 => put(&mut b, off_pos(k), hi),                  // zero-length next value (still valid)
+            3 => put(&mut b, off_pos(k), hi.wrapping_add(4)),  // beyond the next offset / value area
+            4 => put(&mut b, off_pos(k), lo.wrapping_sub(4)),  // before the previous offset
+            5 => { let t = 1 + rng.below((nt - 1) as u64) as usize; let w = get(&b, tag_pos(t)); put(&mut b, tag_pos(t + 1), w); } // duplicate tag
+            6 => { let t = 1 + rng.below((nt - 1) as u64) as usize; let w1 = get(&b, tag_pos(t)); let w2 = get(&b, tag_pos(t + 1)); put(&mut b, tag_pos(t), w2); put(&mut b, tag_pos(t + 1), w1); } // swapped tags
+            7 => put(&mut b, off_pos(k), (vlen as u32).wrapping_add(4 * rng.below(3) as u32)), // at / past the end of the value area
+            _ => { let w = (lo + hi) / 2 & !3; put(&mut b, off_pos(k), w.max(lo)); }  // another valid split
+        }
+        return b;
+    }
     let n_mut = rng.range(1, 3);
     for _ in 0..n_mut {
         if nwords == 0 { break; }
@@ -271,7 +308,18 @@ pub fn record(seed: u64, tier: &str, out_path: &str) {
     let mut events = 0u64;
     for k in 0..n_api {
         let cap = if k < n_big { 16_000 } else if k % 10 == 0 { 375 } else { 40 };
-        let (enc, tags, lens) = random_api_message(&mut rng, cap);
+        let (enc, tags, lens) = match random_api_message(&mut rng, cap) {
+            Ok(x) => x,
+            Err((why, tags, lens)) => {
+                // the builder refused / failed on a well-formed ascending message: an event no spec action allows
+                writeln!(out, "{}", json!({"ev": "decode", "kind": "api_build_failed", "why": why, "ws": [], "tail": 0,
+                    "obs": {"ok": false, "tags": [], "lens": []}, "api": {"ok": true, "tags": tags, "lens": lens},
+                    "panic": false, "concat_ok": true, "reenc_ok": true, "frame_ok": true, "display_ok": true,
+                    "nested_undecodable": false})).unwrap();
+                events += 1;
+                continue;
+            }
+        };
         writeln!(out, "{}", event_of(&enc, "api", Some((&tags, &lens)))).unwrap();
         events += 1;
         let muts = if k < n_big { 1 } else { n_mut_per };
